@@ -14,6 +14,7 @@ from pyvc.unit import unit
 from pyvc import core
 
 LEVEL = "other"
+STANDIN_ALWAYS_THOROUGH = True      # its large bound takes seconds: used at both tiers
 EXPLANATION = ("MIXED. Deductive part: finite case analysis of the real frame reader and message handler - 18 kinds of violating frame x 3 preceding states x compression on / off x followed or not by "
                "a valid message, and the size limit at limit and limit + 1 in four shapes - against the statement: aborted, earlier messages intact, nothing from the violation on. Bounded part: one "
                "violation at every position of generated valid frame sequences with random segmentation.")
